@@ -653,6 +653,38 @@ func main() {
 		}
 	}
 
+	// ---- structural facts: single outbound write routine, blocklist consulted on every path ----
+	{
+		callers := func(match func(string) bool) []string {
+			set := map[string]bool{}
+			for _, f := range root {
+				for _, d := range f.Decls {
+					fd, ok := d.(*ast.FuncDecl)
+					if !ok || fd.Body == nil {
+						continue
+					}
+					ast.Inspect(fd.Body, func(n ast.Node) bool {
+						if ce, ok := n.(*ast.CallExpr); ok && match(exprStr(ce.Fun)) {
+							set[fd.Name.Name] = true
+						}
+						return true
+					})
+				}
+			}
+			var l []string
+			for k := range set {
+				l = append(l, k)
+			}
+			sort.Strings(l)
+			return l
+		}
+		o.strlist("socket_writeto_callers", callers(func(s string) bool { return strings.HasSuffix(s, "socket.WriteTo") || strings.HasSuffix(s, "Conn.WriteTo") }), true)
+		o.strlist("write_to_node_callers", callers(func(s string) bool { return strings.HasSuffix(s, ".writeToNode") }), true)
+		o.strlist("blocklist_lookup_callers", callers(func(s string) bool { return strings.HasSuffix(s, ".ipBlocked") || strings.HasSuffix(s, "ipBlockList.Lookup") || s == "list.Lookup" }), true)
+		o.strlist("valid_token_callers", callers(func(s string) bool { return strings.HasSuffix(s, ".validToken") }), true)
+		o.strlist("limiter_callers", callers(func(s string) bool { return strings.Contains(s, "SendLimiter.") }), true)
+	}
+
 	hdr := "(* GENERATED by /verif/tools/srcfacts from /repo's working tree. DO NOT EDIT. *)\nFrom Coq Require Import ZArith List String.\nImport ListNotations.\nOpen Scope string_scope.\n\n"
 	content := hdr + strings.Join(o.lines, "\n") + "\n"
 	if dest == "" {
